@@ -13,7 +13,7 @@ import time
 import z3
 
 from vlib import env, gen
-from vlib.zrun import twin_verdict, explore_and_prove, all_eq, concretize, pyrepr, eq_term
+from vlib.zrun import twin_verdict, explore_and_prove, all_eq, concretize, pyrepr, eq_term, wrapper_exc
 from vlib.zsym import Int, Real, SymNum, sym_int, model_value, lift, term
 
 META = {
@@ -469,6 +469,77 @@ def task_invariants(systems):
     return res
 
 
+REPLAY_CHG = '''
+from chempy import Substance, Reaction, ReactionSystem
+qa, qe, qb = %(q)s
+A = Substance("A", charge=qa, composition={26: 1})
+E = Substance("E", charge=qe, composition={})          # a species without elements: only its charge (the electron)
+B = Substance("B", charge=qb, composition={26: 1})
+bad = []
+for s_, q_ in ((A, qa), (E, qe), (B, qb)):
+    if s_.charge != q_ or (s_.composition or {}).get(0, 0) != q_: bad.append("%%s: charge %%r / composition %%r, given charge=%%r" %% (s_.name, s_.charge, s_.composition, q_))
+try:
+    ReactionSystem([Reaction({"A": 1, "E": 1}, {"B": 1})], [A, E, B]); accepted = True
+except ValueError as e:
+    accepted = False
+if accepted != (qa + qe == qb): bad.append("A + E -> B with charges %%s accepted=%%s" %% ((qa, qe, qb), accepted))
+for b in bad: print("MISMATCH", b)
+sys.exit(1 if bad else 0)
+'''
+
+
+def task_charge_kw():
+    """the charge may be given by keyword instead of composition[0] - also for a species with NO elements (the electron): the substance
+    carries that charge and the admission test balances it (symbolic integer charges)"""
+    from chempy import Substance, Reaction, ReactionSystem
+    from vlib.zsym import Int
+
+    qa, qe, qb = Int("qa"), Int("qe"), Int("qb")
+    assum = [v.t >= -3 for v in (qa, qe, qb)] + [v.t <= 3 for v in (qa, qe, qb)]
+
+    def fn():
+        A = Substance("A", charge=qa, composition={26: 1})
+        E = Substance("E", charge=qe, composition={})
+        B = Substance("B", charge=qb, composition={26: 1})
+        rx = Reaction({"A": 1, "E": 1}, {"B": 1}, checks=())
+        rx.string = lambda *a, **k: "<rxn>"
+        carried = [(s_.charge, (s_.composition or {}).get(0, 0), q_) for s_, q_ in ((A, qa), (E, qe), (B, qb))]
+        try:
+            ReactionSystem([rx], [A, E, B])
+            acc = True
+        except ValueError as e:
+            if "Composition violation" not in str(e):
+                raise
+            acc = False
+        return carried, acc
+
+    def goal(p, twin=False):
+        if p.kind == "exc":
+            return False
+        carried, acc = p.value
+        conds = []
+        for ch, c0, q_ in carried:
+            conds += [eq_term(ch, q_), eq_term(c0, q_)]
+        bal = (qa + qe - qb).t == 0
+        if twin:
+            bal = (qa + qe + qb).t == 0
+        conds.append(bal if acc else z3.Not(bal))
+        return z3.And(*conds)
+
+    o = explore_and_prove(fn, assum, goal, max_paths=200, deadline_s=60)
+    ot = explore_and_prove(fn, assum, lambda p: goal(p, True), max_paths=200, deadline_s=30, max_fail=1)
+    res = dict(engine="Z", functions=[env.describe(Substance.__init__), env.describe(ReactionSystem.check_balance)], obligations=o.obligations,
+               discharged=o.discharged, violations=[], inconclusive=list(o.inconclusive), queries=o.queries, paths=o.paths, solver_s=o.solver_s,
+               twin=twin_verdict(ot), bounds="charges -3..3 (symbolic integers) given by keyword; one species without elements",
+               sample={"reaction": "A + E -> B", "charges": "symbolic, by keyword"})
+    for p, m, g in o.failed[:1]:
+        qv = tuple(model_value(m, v.t) for v in (qa, qe, qb)) if m is not None else (3, -1, 2)
+        res["violations"].append(dict(key="charge_kw:%s" % p.kind, soft=wrapper_exc(p.value) if p.kind == "exc" else False,
+                                      desc="charges %s by keyword -> %r" % (qv, p.value), replay_src=REPLAY_CHG % dict(q=repr(qv))))
+    res["status"] = "violation" if res["violations"] else ("inconclusive" if res["inconclusive"] else "discharged")
+    return res
+
+
 def tasks(tier, seed):
     ts = []
     lo, hi = (0, 2) if tier == "quick" else (0, 3)
@@ -485,6 +556,7 @@ def tasks(tier, seed):
         ch = systems[i::n]
         if ch:
             ts.append(dict(id="C05.lindep.%02d" % i, fn="task_lindep", kwargs=dict(systems=ch, maxpref=2 if tier == "quick" else 3), timeout=1800))
+    ts.append(dict(id="C05.charge_keyword", fn="task_charge_kw", kwargs={}, timeout=300))
     for i in range(2 if tier == "quick" else 8):
         ch = systems[i:: (2 if tier == "quick" else 8)]
         if ch:
